@@ -183,7 +183,9 @@ def run(chk):
     chk.guard('C19.V', check_csv_dialect, chk)
     chk.guard('C19.V', check_csv_inference, chk)
     # shared clauses
-    from . import c12, c16, c09
+    from . import c12, c16, c09, c05
+    chk.rule('C05.K', 'shared with C05: dataParseCSV rows are objects keyed by exactly the header fields (ragged rows; evaluation on concrete texts)')
+    chk.guard('C05.K', c05.check_object_keys_sim, chk)
     chk.rule('C12.sink', 'shared with C12: dataTop count reaches range() coerced (C19.T)')
     eng = c12.Engine(chk)
     before = len(chk.instances)
